@@ -36,3 +36,8 @@ Print Assumptions C07_unknown_label_rejected.
 Theorem C07_parser_reads_back_every_tree : forall e, parse_tokens (pr 0 e) = Ok e.
 Proof. exact parse_print_roundtrip. Qed.
 Print Assumptions C07_parser_reads_back_every_tree.
+
+(* x >> n is evaluated with a shortcut for counts beyond the size of x (Z.shiftr would halve n times); it is the same function *)
+Theorem C07_shift_right : forall a n, 0 <= n -> shr a n = Z.shiftr a n.
+Proof. exact shr_spec. Qed.
+Print Assumptions C07_shift_right.
